@@ -210,6 +210,9 @@ PoolC05 == <<
   [W("/ab_") EXCEPT !.mkind = "removeparam", !.mval = "ab"], [W("/ab-") EXCEPT !.mkind = "removeparam", !.mval = "ba"],
   \* pattern-less catch-all rules next to token-less patterned rules with the same option mask (all of them
   \* live in the fallback bucket; a fused group with a match-all member must still match everything)
+  \* wildcard rules pinned on the right, sharing bucket and mask (fused into one regex set: every member keeps its
+  \* anchor), and one pattern text under two different anchorings in two categories
+  [W("/ab*-") EXCEPT !.right = TRUE], [W("/ab*_") EXCEPT !.right = TRUE], [W("/ab*ba") EXCEPT !.exc = TRUE, !.right = TRUE],
   [W("*") EXCEPT !.pos = {"image"}], [W("/a*b") EXCEPT !.pos = {"image"}], [W("a*-") EXCEPT !.pos = {"image"}],
   [W("*") EXCEPT !.exc = TRUE, !.pos = {"font"}], [W("/a*b") EXCEPT !.exc = TRUE, !.pos = {"font"}], [W("*") EXCEPT !.pos = {"font"}]
 >>
@@ -223,7 +226,8 @@ ReqsC05 == <<
   MkReq("https", "x.com", "/ab_", "image", "x.com"),
   MkReq("https", "x.com", "/x-", "image", "ba.com"),
   MkReq("https", "x.com", "/x-", "font", "ba.com"),
-  MkReq("https", "x.com", "/a-b", "font", "x.com")
+  MkReq("https", "x.com", "/a-b", "font", "x.com"),
+  MkReq("https", "ab.ba", "/ab_x-y", "script", "x.com")
 >>
 
 --------------------------------------------------------------------------
